@@ -54,6 +54,10 @@ pub struct Case {
     pub stream_per_tx: bool,
     pub timers: bool,
     pub buffer: usize,
+    /// none of the catch-up range's transactions is delivered as a replicated write (they only come with the
+    /// catch-up response); combined with a conflicting transaction that claims a sequence inside the range
+    #[serde(default)]
+    pub range_missing: bool,
     /// replay: only this arrival order
     #[serde(default)]
     pub only_order: Option<Vec<usize>>,
@@ -388,7 +392,8 @@ fn judge(case: &Case, script: &Script, p: u16, msgs: &[Msg], order: &[usize], re
 fn messages(case: &Case) -> Vec<Msg> {
     let mut v = Vec::new();
     for i in 0..case.lens.len() {
-        if case.missing != Some(i) {
+        let in_missing_range = case.range_missing && matches!(case.catchup, Some((j, m2)) if (j..m2).contains(&i));
+        if case.missing != Some(i) && !in_missing_range {
             v.push(Msg::T(i));
         }
     }
@@ -526,7 +531,20 @@ pub fn cases(thorough: bool) -> Vec<Case> {
                     if !thorough && buffer == 2 && stream_per_tx {
                         continue;
                     }
-                    v.push(Case { lens: lens.clone(), missing, dup, x, catchup, stream_per_tx, timers: false, buffer, only_order: None });
+                    v.push(Case { lens: lens.clone(), missing, dup, x, catchup, stream_per_tx, timers: false, buffer, range_missing: false, only_order: None });
+                }
+            }
+            // a foreign coordinator's transaction claims a sequence inside a range the replica never received and
+            // asks the coordinator for: every order of the remaining writes, the claimant and the catch-up response
+            {
+                for j in 0..n {
+                    for m2 in j + 1..=n.min(j + 2) {
+                        for jx in j..m2 {
+                            for buffer in if thorough { vec![1000usize, 2] } else { vec![1000usize] } {
+                                v.push(Case { lens: lens.clone(), missing: None, dup: None, x: Some((false, jx)), catchup: Some((j, m2)), stream_per_tx, timers: false, buffer, range_missing: true, only_order: None });
+                            }
+                        }
+                    }
                 }
             }
             // timers: real catch-up from the coordinator
@@ -537,13 +555,13 @@ pub fn cases(thorough: bool) -> Vec<Case> {
                 if missing == Some(n - 1) {
                     continue;
                 }
-                v.push(Case { lens: lens.clone(), missing, dup: None, x: None, catchup: None, stream_per_tx, timers: true, buffer: 1000, only_order: None });
+                v.push(Case { lens: lens.clone(), missing, dup: None, x: None, catchup: None, stream_per_tx, timers: true, buffer: 1000, range_missing: false, only_order: None });
             }
             // timers + a conflicting write inside a two-event transaction (the gap detection then sees a
             // buffered entry next to the applied range)
             for j in 0..n {
                 if lens[j] == 2 && (thorough || !stream_per_tx) {
-                    v.push(Case { lens: lens.clone(), missing: None, dup: None, x: Some((true, j)), catchup: None, stream_per_tx, timers: true, buffer: 1000, only_order: None });
+                    v.push(Case { lens: lens.clone(), missing: None, dup: None, x: Some((true, j)), catchup: None, stream_per_tx, timers: true, buffer: 1000, range_missing: false, only_order: None });
                 }
             }
         }
